@@ -159,14 +159,14 @@ class Plan:
         for si, st in enumerate(steps):
             last = si == len(steps) - 1
             if st["a"] == "open":
-                self.add("open " + st["l"], ("open", si))
+                self.add("open %s %s" % (st["s"], st["l"]), ("open", si))
             elif st["a"] == "close":
-                self.add("close", ("close", si))
+                self.add("close " + st["s"], ("close", si))
             else:
                 k, ix = bind.val(st["v"])
                 if st["ro"]:
                     self.add("fhash", ("hash0", si))
-                self.add("write %s %s %s %s %d" % (via, pm[st["p"]], enc(nm[st["n"]]), k, ix), ("write", si))
+                self.add("write %s %s %s %s %s %d" % (st["s"], via, pm[st["p"]], enc(nm[st["n"]]), k, ix), ("write", si))
                 if st["ro"]:
                     self.add("fhash", ("hash1", si))
             if every_step or last:
@@ -263,6 +263,8 @@ def judge(ctx, cat, plan, out, crash):
         if what == "open":
             want_ok = st["res"] == "ok"
             got_ok = r0 == "ok"
+            if want_ok != got_ok and st.get("adm"):
+                return "branch"         # HDF5's own rule decided (open next to another handle): both admitted
             if want_ok != got_ok:
                 had = "missing" if (si == 0 or not any(s["a"] == "open" and s["l"] != "READ" for s in steps[:si])) else "existing"
                 ctx.violation("open:%s:%s-file:%s" % (st["l"], had, "refused" if want_ok else "accepted"),
@@ -284,7 +286,10 @@ def judge(ctx, cat, plan, out, crash):
             got_ok = r0 == "ok"
             if st["ro"]:
                 if got_ok or not is_exc(res):
-                    ctx.violation("readonly:getWriter-accepted", "write through a READ handle was not refused: '%s'" % r0, rep)
+                    oth = sorted(v for sl, v in st["hs"].items() if sl != st["s"] and v != "closed")
+                    ctx.violation("readonly:getWriter-accepted:%s" % ("other-handle-" + "+".join(oth) if oth else "only-handle"),
+                                  "write through a CheckpointFile opened with READ was not refused (other open handles on "
+                                  "the file: %s): '%s'" % (oth or "none", r0), rep)
                     return "viol"
             elif st["loose"]:
                 if (st["res"] == "ok") != got_ok:
@@ -498,17 +503,18 @@ def random_runs(ctx, cat, exe, nexec, nops, rng):
             p = rng.choice(("p1", "p2", "p3"))
             n = rng.choice(("n1", "n2", "n3"))
             k = slotkind[(p, n)]
-            if x < 0.10:
-                l = rng.choice(("READ", "MODIFY", "MODIFY", "CREATE"))
-                cmds.append("open " + l)
-                ops.append({"a": "open", "l": l})
-            elif x < 0.14:
-                cmds.append("close")
-                ops.append({"a": "close"})
+            sl = rng.choice(("s1", "s1", "s2"))
+            if x < 0.12:
+                l = rng.choice(("READ", "READ", "MODIFY", "MODIFY", "CREATE"))
+                cmds.append("open %s %s" % (sl, l))
+                ops.append({"a": "open", "s": sl, "l": l})
+            elif x < 0.17:
+                cmds.append("close " + sl)
+                ops.append({"a": "close", "s": sl})
             elif x < 0.60:
                 ix = rng.choice(cat.kinds[k])
-                cmds.append("write %s %s %s %s %d" % (via, pm[p], enc(nm[n]), k, ix))
-                ops.append({"a": "write", "p": p, "n": n, "v": "%s:%d" % (k, ix)})
+                cmds.append("write %s %s %s %s %s %d" % (sl, via, pm[p], enc(nm[n]), k, ix))
+                ops.append({"a": "write", "s": sl, "p": p, "n": n, "v": "%s:%d" % (k, ix)})
             else:
                 cmds.append("read %s %s %s %s ? %d" % (via, pm[p], enc(nm[n]), k, rng.randrange(2)))
                 ops.append({"a": "read", "p": p, "n": n, "k": k})
@@ -670,8 +676,9 @@ def run(ctx):
     ctx.sample({"pairs_history": hs[len(hs) // 2], "bound_to_each_of": "%d ordered value pairs" % len(A)})
 
     # ---- 2. all histories over 2 paths x 2 names x 6 ids x 3 levels ------------------------------
-    for mod, what in ([("MCQuickA", "depth 4"), ("MCQuickB", "depth 5, fewer ids")] if quick else
-                      [("MCQuickA", "depth 4"), ("MCThoroughA", "depth 5"), ("MCQuickB", "depth 5, fewer ids")]):
+    for mod, what in ([("MC2Quick", "two handles at once, depth 4"), ("MCQuickA", "depth 4")] if quick else
+                      [("MC2Thorough", "two handles at once, depth 5"), ("MCQuickA", "depth 4"),
+                       ("MCThoroughA", "depth 5"), ("MCQuickB", "depth 5, fewer ids")]):
         res = tlc(mod, "Checkpoint histories " + what)
         if res.records:
             ctx.sample({"history": res.records[len(res.records) // 3]})
